@@ -316,6 +316,17 @@ class aligned_iterator_type : public iterator_base<BaseType> {
 };
 
 
+// Reference counts may only be updated while holding the GIL, but array
+// objects are created, copied and destroyed inside kernels that have released
+// it (and the same ndarray may be in use by several threads). The GIL is taken
+// for the duration of the update; this is cheap when it is already held.
+struct refcount_gil {
+    refcount_gil() :state_(PyGILState_Ensure()) { }
+    ~refcount_gil() { PyGILState_Release(state_); }
+    private:
+    PyGILState_STATE state_;
+};
+
 template <typename BaseType>
 class array_base {
     protected:
@@ -334,6 +345,7 @@ class array_base {
                         << " [using size " <<sizeof(BaseType) << " expecting " << PyArray_ITEMSIZE(array_) << "]\n";
                     assert(false);
                 }
+                refcount_gil held;
                 Py_INCREF(array_);
             }
 
@@ -345,10 +357,12 @@ class array_base {
                         << " [using size " <<sizeof(BaseType) << " expecting " << PyArray_ITEMSIZE(array_) << "]\n";
                     assert(false);
                 }
+                refcount_gil held;
                 Py_INCREF(array_);
             }
 
         ~array_base() {
+            refcount_gil held;
             Py_XDECREF(array_);
         }
         array_base<BaseType>& operator = (const BaseType& other) {
